@@ -17,7 +17,7 @@ DEFAULT = {
     "explicit_start": True, "derived_args_derived": True, "derived_weights": True, "else_level": True,
     "constraints": ALL_CONSTRAINTS, "max_constraints": 3, "factor_shorthand": True,
     "blocks": ("cross",), "max_crossing": 2, "empty_crossing": True, "rcc_false": True,
-    "max_T": 8,
+    "max_T": 8, "aux": False,
 }
 
 
@@ -156,6 +156,8 @@ def design_spec(draw, c=None):
     nc = draw(st.integers(0, c["max_constraints"]))
     for _ in range(nc):
         b["constraints"].append(draw(constraint(c, spec, T, b["design"])))
+    if c.get("aux"):
+        spec["aux"] = draw(st.integers(0, 2 ** 30))
     return spec
 
 
